@@ -379,6 +379,19 @@ func runC03(c *mon.Ctx) {
 				raw = jv.Clone()
 				raw.Del("signatures")
 				reID("raw-signatures-removed", gen.Plain().Bytes(raw))
+				// keys that merely resemble event_id / unsigned / signatures are unknown keys: redactable, hence without
+				// influence on the ID, and never the ID itself
+				for _, k := range []string{"event_id", "unsigned", "signatures"} {
+					for _, v := range gen.FoldVariants(k) {
+						raw = jv.Clone()
+						if k == "event_id" {
+							raw.Set(v, ref.S("$spoofed"))
+						} else {
+							raw.Set(v, ref.O("x", ref.O("ed25519:1", ref.S("AAAA"))))
+						}
+						reID("raw-lookalike-key-added:"+k, gen.Plain().Bytes(raw))
+					}
+				}
 				s2 := fresh().Sign(id2.Server, gmsl.KeyID(id2.KeyID), id2.Priv)
 				reID("Sign", s2.JSON())
 				if tp, site := tupleOf(s2); site != "" {
